@@ -13,7 +13,8 @@ import re
 from ..callgraph import CallGraph
 from ..dataflow import single_def
 from ..facts import AnchorMissing
-from .common import LS, where, short, fn_key
+from .. import cfg
+from .common import LS, where, short, fn_key, ok_blocks
 
 CRATES = ["parol_ls.bin"]
 
@@ -116,3 +117,31 @@ def check(ctx):
               "notify_* helpers are called only from %s" % sorted(short(x) for x in callers),
               "notify_* helpers are also called from %s: a new place that publishes diagnostics (must be ordered with the "
               "document version)" % sorted(short(x) for x in extra), "crates/parol-ls/src/server.rs")
+
+    # ---------------------------------------------------------------- R29.3
+    # every didOpen / didChange that is handled successfully publishes diagnostics tagged with *its* version:
+    # no path reaches Ok(()) without a notify_* call, and the version handed to notify_* is the notification's.
+    for h in ("parol_ls::server::Server::handle_open_document", "parol_ls::server::Server::handle_change_document"):
+        b = facts.body(h)
+        nblocks = {c.bb for c in b.calls() if c.names() & set(NOTIFY)}
+        if not nblocks:
+            raise AnchorMissing("%s does not publish" % h)
+        oks = ok_blocks(b)
+        reach = cfg.reachable_from(b, 0, avoid_blocks=nblocks)
+        silent = [(bi, line) for bi, rv, line in oks if bi in reach]
+        ctx.check(not silent, "R29.3", "%s|every-success-path-publishes" % short(h).split("::")[-1],
+                  "every path of %s to Ok(()) passes a notify_* call" % short(h).split("::")[-1],
+                  "%s can return Ok(()) without publishing diagnostics (at line(s) %s): the last published diagnostics "
+                  "then stay tagged with an older version of the document" % (short(h), [l for _b, l in silent]), where(b))
+        # the published version derives from the notification parameters (field `version`)
+        from ..dataflow import raw_operand_place
+        for c in b.calls():
+            if c.names() & set(NOTIFY):
+                vi = 2 if c.path.endswith("notify_analysis_ok") else 3
+                rp = raw_operand_place(b, c.args[vi]) if vi < len(c.args) else None
+                names = [e[2] for e in rp[1:] if isinstance(e, list) and e[0] == "f"] if rp else []
+                ctx.check("version" in names, "R29.3", "%s|%s-version-from-notification"
+                          % (short(h).split("::")[-1], c.path.split("::")[-1]),
+                          "the published version is the `version` field of the notification parameters",
+                          "%s publishes a version that is not the notification's version field" % short(c.path),
+                          where(b, c.line))
